@@ -176,20 +176,29 @@ def rule_file_offsets(ctx, prop='C04'):
         try:
             if name == 'hashes':
                 # prior_tx_count * 32 with prior_tx_count = self.tx_counts[self.fs_height] if self.fs_height >= 0 else 0
-                ok = False
-                why = norm(off)
-                if isinstance(off, ast.BinOp) and isinstance(off.op, ast.Mult):
-                    base, k = (off.left, off.right) if const_value(off.right) is not None else (off.right, off.left)
-                    if const_value(k) == 32 and isinstance(base, ast.Name) and len(d.get(base.id, [])) == 1:
-                        rhs = d[base.id][0][1]
-                        if isinstance(rhs, ast.IfExp):
-                            cn = q.comparison_normal(ctx, f, rhs.test)
-                            body_ok = norm(rhs.body) == 'self.tx_counts[self.fs_height]' and const_value(rhs.orelse) == 0
-                            test_ok = cn is not None and cn[1] == '>=' and q.lin_eq(cn[0], {'self.fs_height': 1, '': 0})
-                            ok = body_ok and test_ok
-                            why = norm(rhs)
-                        else:
-                            why = f'{base.id} = {norm(rhs)}'
+                # decided per path (the selection may be a conditional expression, an if/else or anything equivalent)
+                from .. import paths as P
+                ok, why, seen = True, norm(off), 0
+                for pth in P.paths(f.node.body):
+                    evs = [env_ for st_, env_ in pth.events if st_ is q.stmt(c)]
+                    if not evs:
+                        continue
+                    seen += 1
+                    o_ = P.subst(c.args[0], evs[0])
+                    why = norm(o_)
+                    base = None
+                    if isinstance(o_, ast.BinOp) and isinstance(o_.op, ast.Mult):
+                        base = o_.left if const_value(o_.right) == 32 else (o_.right if const_value(o_.left) == 32 else None)
+                    nonneg = P.decided(ctx, f, pth, 'self.fs_height >= 0')
+                    if base is None or nonneg is None:
+                        ok = False
+                    elif nonneg:
+                        ok = ok and norm(base) == 'self.tx_counts[self.fs_height]'
+                    else:
+                        ok = ok and const_value(base) == 0
+                    if not ok:
+                        break
+                ok = ok and seen >= 2
                 ctx.check(ok, f'{prop}.REVOCABLE', ctx.key(f, q.stmt(c), 'offset'),
                           'tx hashes written at 32 * (tx count at the flushed file height): append region only',
                           f'tx hash offset is not 32 * tx_counts[fs_height] ({why}): committed hashes can be overwritten or a gap left',
@@ -337,40 +346,39 @@ def rule_scrub(ctx, prop='C04'):
               f'scrubbing is skipped under the wrong condition ({why})', loc=ctx.loc(ce, ce.node))
     n += 1
     # scan: whole DB, flush id decoded from the last two key bytes, strictly greater than the UTXO count
-    loops = [s for s in ce.own_nodes() if isinstance(s, ast.For) and isinstance(s.iter, ast.Call)
-             and isinstance(s.iter.func, ast.Attribute) and s.iter.func.attr == 'iterator']
-    ok, why = False, 'scan loop not found'
-    if len(loops) == 1:
-        lp = loops[0]
-        it = lp.iter
+    # (the normaliser turns the accumulate loop into the comprehension it spells out: one generator over the DB iterator)
+    comps = [c for c in ce.own_nodes() if isinstance(c, ast.ListComp) and len(c.generators) == 1 and isinstance(c.generators[0].iter, ast.Call)
+             and isinstance(c.generators[0].iter.func, ast.Attribute) and c.generators[0].iter.func.attr == 'iterator']
+    ok, why = False, 'scan of the history DB not found'
+    if len(comps) == 1:
+        g = comps[0].generators[0]
+        it = g.iter
         kws = {k.arg: k.value for k in it.keywords}
         whole = (not it.args and (not kws or (set(kws) == {'prefix'} and const_value(kws['prefix']) == b''))) or \
                 (len(it.args) == 1 and const_value(it.args[0]) == b'')
-        keyv = norm(lp.target.elts[0]) if isinstance(lp.target, ast.Tuple) else norm(lp.target)
-        ifs = [s for s in lp.body if isinstance(s, ast.If)]
-        d = df.defs(ce)
+        keyv = norm(g.target.elts[0]) if isinstance(g.target, ast.Tuple) else norm(g.target)
         cond_ok = False
         cond_txt = ''
-        if len(ifs) == 1 and not ifs[0].orelse:
-            t = ifs[0].test
+        if len(g.ifs) == 1:
+            t = g.ifs[0]
             cond_txt = norm(t)
-            cn = q.comparison_normal(ctx, ce, t)
-            if cn is not None and cn[1] == '>':
-                atoms = {k: v for k, v in cn[0].items() if v != 0}
-                ids = [k for k in atoms if k not in (p,)]
-                if atoms.get(p) == -1 and len(ids) == 1 and atoms[ids[0]] == 1 and '' not in atoms:
-                    # ids[0] must be the be16 decode of key[-2:]
-                    ds = d.get(ids[0], [])
-                    if len(ds) == 1 and isinstance(ds[0][1], ast.Call) and norm(ds[0][1].func).startswith('unpack_be_uint16') \
-                            and norm(ds[0][1].args[0]) == f'{keyv}[-2:]':
-                        cond_ok = True
-            elif isinstance(t, ast.Compare) and len(t.ops) == 1 and isinstance(t.ops[0], ast.Gt):
-                # byte-wise form: key[-2:] > pack_be_uint16(utxo_flush_count)
-                if norm(t.left) == f'{keyv}[-2:]' and norm(t.comparators[0]) == f'pack_be_uint16({p})':
+            if isinstance(t, ast.Compare) and len(t.ops) == 1:
+                l_, r_ = t.left, t.comparators[0]
+                if isinstance(t.ops[0], ast.Lt):
+                    l_, r_, gt = r_, l_, True
+                else:
+                    gt = isinstance(t.ops[0], ast.Gt)
+
+                def be16_of_key(e):
+                    # unpack_be_uint16*(key[-2:])[0]
+                    return isinstance(e, ast.Subscript) and const_value(e.slice) == 0 and isinstance(e.value, ast.Call) \
+                        and norm(e.value.func).startswith('unpack_be_uint16') and e.value.args and norm(e.value.args[0]) == f'{keyv}[-2:]'
+                if gt and be16_of_key(l_) and norm(r_) == p:
                     cond_ok = True
-            appended = [c for c in walk_own(ifs[0]) if isinstance(c, ast.Call) and isinstance(c.func, ast.Attribute)
-                        and c.func.attr == 'append' and norm(c.args[0]) == keyv]
-            cond_ok = cond_ok and len(appended) == 1
+                # byte-wise form: key[-2:] > pack_be_uint16(utxo_flush_count)
+                if gt and norm(l_) == f'{keyv}[-2:]' and norm(r_) == f'pack_be_uint16({p})':
+                    cond_ok = True
+        cond_ok = cond_ok and norm(comps[0].elt) == keyv
         ok = whole and cond_ok
         why = f'scan over {norm(it)} selecting `{cond_txt}`'
     ctx.check(ok, f'{prop}.SCRUB', ctx.key(ce, None, 'excess selection'),
